@@ -34,6 +34,8 @@ type Gen struct {
 	dicts int
 	// noQual marks paths the generator never references (reserved for Anon-only use)
 	noQual map[int]bool
+	// lits: float/complex literals with corner cases and LitFunc callbacks may appear
+	lits bool
 	// late: some list items are placeholders (empty statements) that a later "fill" op extends
 	late  bool
 	slots []int
@@ -139,6 +141,13 @@ func (g *Gen) leaf(keyPath int) *Node {
 	case 0:
 		return &Node{K: "id", S: g.id()}
 	case 1:
+		if g.lits && g.r.Chance(0.12) {
+			return &Node{K: "flt", I: g.r.Intn(10)}
+		}
+		if g.lits && g.r.Chance(0.04) && keyPath == -1 {
+			g.mark++
+			return &Node{K: "litfunc", I: g.mark}
+		}
 		return &Node{K: "int", I: g.r.Intn(100)}
 	}
 	return &Node{K: "str", S: g.r.Pick([]string{"a", "b c", "", "x\ny", "`q`", "http://e.x/p", "// not a comment", "a:b,c", "}{"})}
